@@ -68,6 +68,19 @@ ENTRIES = {
                 "sockets are assumed; TLS streams are covered under C12.",
         "design_ref": "DESIGN.md §5 C18",
     },
+    "C01": {
+        "text": "Theorems for every request list and every schedule (any interleaving of issuing on any eligible pooled or new "
+                "connection, server reads, handler completions in any order on HTTP/2, client reads, cancellations): in the "
+                "message-level model of client + pool + server whatever a caller receives is the handler's answer to that caller's own "
+                "request, and every request the server handles is one that was sent, as sent (invariant proved by induction over the "
+                "schedule); with a pool that hands out a busy HTTP/1 connection the model does cross-talk (witness). The real "
+                "Client/Server pair is run on generated concurrent scenarios with ids, digests and origin echoes checked at both ends "
+                "and compared with the model's outcome.",
+        "note": "Trusted: Lean kernel; hyper's framing is an assumption of the connection rules; the tie to the code is "
+                "differential (concurrent scenarios, virtual time), partial for liveness: completion is checked on the runs, the "
+                "theorem side covers matching and integrity at message level.",
+        "design_ref": "DESIGN.md §5 C01",
+    },
     "C12": {
         "text": "Theorems for every scheme string, host string, peer behaviour, ALPN offer and TLS configuration: with a TLS "
                 "configuration and an https/wss scheme in any spelling the model of TlsTransport::call + TlsTransportWrapper::call + "
